@@ -242,14 +242,49 @@ func (c *Ctx) Explore(sc *explore.Scenario, maxD int, sig SigFunc) *explore.Stat
 		unknown++
 		return true // stop this scenario at the first unknown violation
 	}
-	done := ex.Explore(maxD)
+	var done bool
+	if maxD < 0 {
+		done = ex.ExploreAll()
+	} else {
+		done = ex.Explore(maxD)
+	}
 	if !done && unknown == 0 {
 		c.Res.Incomplete = true
 	}
 	ss := &ScenarioStat{Name: sc.Name, Params: sc.Params, Executions: st.Executions, Steps: st.Steps, States: len(st.States),
 		Outcomes: len(st.Outcomes), CompletedD: st.CompletedD, MaxD: maxD, MaxEnabled: st.MaxEnabled, MaxPoints: st.MaxPoints,
 		Truncated: st.Truncated, Incomplete: !done}
-	c.Res.Scenarios = append(c.Res.Scenarios, ss)
+	if sc.Agg != "" {
+		ss.Name, ss.Params = sc.Agg, ""
+		merged := false
+		for _, o := range c.Res.Scenarios {
+			if o.Name == sc.Agg && o.Params == "" {
+				o.Executions += ss.Executions
+				o.Steps += ss.Steps
+				o.States += ss.States
+				if ss.Outcomes > o.Outcomes {
+					o.Outcomes = ss.Outcomes
+				}
+				if ss.CompletedD < o.CompletedD {
+					o.CompletedD = ss.CompletedD
+				}
+				if ss.MaxEnabled > o.MaxEnabled {
+					o.MaxEnabled = ss.MaxEnabled
+				}
+				if ss.MaxPoints > o.MaxPoints {
+					o.MaxPoints = ss.MaxPoints
+				}
+				o.Truncated += ss.Truncated
+				o.Incomplete = o.Incomplete || ss.Incomplete
+				merged = true
+			}
+		}
+		if !merged {
+			c.Res.Scenarios = append(c.Res.Scenarios, ss)
+		}
+	} else {
+		c.Res.Scenarios = append(c.Res.Scenarios, ss)
+	}
 	c.Res.Evaluations += int64(st.Executions)
 	c.Res.States += int64(len(st.States))
 	c.Res.Transitions += st.Steps
